@@ -50,6 +50,7 @@ type RaceCase struct {
 	Burst   int      `json:"burst"`             // requests per goroutine (barrier variant: the first one is the held one)
 	Iter    int      `json:"iter"`              // fresh groups tried
 	Barrier bool     `json:"barrier,omitempty"` // hold every first request inside the first failing member until all are inside
+	Stagger int      `json:"stagger,omitempty"` // barrier variant: the k-th request leaves the member k*Stagger ns after the barrier opened (busy wait; 0 = all at once)
 	Kinds   []string `json:"kinds"`             // get | has | get-absent | has-absent, cycled over the requests
 	Perturb []int    `json:"perturb,omitempty"`
 }
@@ -79,8 +80,9 @@ func genRace(t *rapid.T, c *Case) {
 	if rc.Barrier {
 		// the group starts on member 0; at least two failing members come before the healthy one
 		rc.Healthy = g.rng(2, rc.Members-1, "rhealthy")
-		rc.Workers = pick(g, []int{3, 4, 6, 8, 12, 16, 24, 32}, "rworkers")
+		rc.Workers = pick(g, []int{4, 8, 16, 16, 24, 32, 32, 48}, "rworkers")
 		rc.Burst = pick(g, []int{1, 1, 2}, "rburst")
+		rc.Stagger = pick(g, []int{0, 0, 0, 100, 300, 1000}, "rstagger")
 		rc.Iter = hx.Pick(60, 150)
 	} else {
 		rc.Healthy = g.rng(0, rc.Members-1, "rhealthy")
@@ -192,9 +194,16 @@ func runRace(c Case, o *hx.Outcome) {
 		}
 		if rc.Barrier && start != rc.Healthy {
 			leaves[start].Gate = func(kind string, n int, id desync.ChunkID) {
-				inside.Add(1)
+				k := inside.Add(1)
 				check()
 				<-open // closed once all are inside: later visits pass
+				if rc.Stagger > 0 && k <= int64(rc.Workers) {
+					// spread the late reports over the time the first requests need for their next attempts
+					// (shakes the schedule only; no verdict depends on the clock)
+					d := time.Duration((k-1)*int64(rc.Stagger)) * time.Nanosecond
+					for t0 := time.Now(); time.Since(t0) < d; {
+					}
+				}
 			}
 		}
 
@@ -312,10 +321,11 @@ func TestRaceEnum(t *testing.T) {
 		t.Skip("other shard")
 	}
 	n := 0
-	for _, members := range []int{3, 4} {
-		for _, workers := range []int{4, 8, 16, 32} {
-			for healthy := 2; healthy < members; healthy++ {
-				rc := &RaceCase{Members: members, Healthy: healthy, Workers: workers, Burst: 1, Iter: hx.Pick(150, 400), Barrier: true, Kinds: []string{"get", "has", "get", "get-absent"}}
+	for _, mh := range [][2]int{{3, 2}, {4, 3}, {4, 2}} {
+		for _, workers := range []int{16, 32} {
+			for _, stagger := range []int{0, 300} {
+				rc := &RaceCase{Members: mh[0], Healthy: mh[1], Workers: workers, Burst: 1, Iter: hx.Pick(600, 1500), Barrier: true, Stagger: stagger,
+					Kinds: []string{"get", "has", "get", "get-absent"}}
 				n++
 				if !hx.Case(t, spec, Case{Mode: "race", Seed: uint64(40 + n), Race: rc}) {
 					return
